@@ -8,7 +8,7 @@ NP = 'DocumentTemplate.DT_Util.name_param'
 # as seen by the tag constructors: parameter parsing yields an opaque dict / a (name, expr) pair,
 # or raises ParseError
 contract(PP, params=dict(text=Opaque()), raises=['ParseError'], returns=Opaque())
-contract(NP, params=dict(params=Opaque()), raises=['ParseError', 'SyntaxError'], returns=TupleS(Opaque(), Opaque()))
+contract(NP, params=dict(params=Opaque(), tag=Opaque(), expr=Opaque(), attr=Opaque(), default_unnamed=Opaque()), raises=['ParseError', 'SyntaxError'], returns=TupleS(Opaque(), Opaque()))
 
 
 class BlocksList(Spec):
